@@ -355,6 +355,86 @@ pub fn exercise(cache: &cur::C, buf: &[u8], q: &Queries, st: &mut Stats) -> Resu
     Ok(reached)
 }
 
+/// Hash of the *contents* of all answers to a reduced query set (addresses do not enter).
+fn answers_hash(cache: &cur::C, q: &Queries) -> u64 {
+    let mut h = 0xcbf29ce484222325u64;
+    let mut add = |s: &str| {
+        h = crate::engine::fnv_mix(h, s.as_bytes());
+        h = crate::engine::fnv_mix(h, &[0xfe]);
+    };
+    for (c, _) in q.u.all_classes() {
+        add(cache.class(c).unwrap_or("\u{1}none"));
+    }
+    for c in &q.u.known_classes {
+        for (m, _) in q.u.all_methods() {
+            match cache.method(c, m) {
+                Some((a, b)) => {
+                    add(a);
+                    add(b);
+                }
+                None => add("\u{1}none"),
+            }
+        }
+        for m in &q.u.known_methods {
+            for &l in q.lines.iter().take(12) {
+                for f in cache.frame_line(c, m, l, None) {
+                    add(f.class);
+                    add(f.method);
+                    add(f.file.unwrap_or("\u{1}nofile"));
+                    add(&f.line.to_string());
+                }
+                add("\u{2}");
+            }
+            for p in &q.u.params {
+                for f in cache.frame_params(c, m, p) {
+                    add(f.class);
+                    add(f.method);
+                }
+                add("\u{3}");
+            }
+        }
+    }
+    for s in q.sigs.iter().take(8) {
+        match cache.sig(s) {
+            Some(o) => add(&o.formatted),
+            None => add("\u{1}none"),
+        }
+    }
+    h
+}
+
+/// "Never reads outside the buffer", made observable without a sanitizer: the same bytes are placed inside a larger
+/// allocation twice, surrounded by different filler bytes; parse verdict and every answer must be identical. A read
+/// beyond either end of the slice that influences an answer (a comparison, a length, a decoded prefix) shows up as a
+/// difference between the two placements.
+fn check_placement(bytes: &[u8], q: &Queries, label: &str, st: &mut Stats) -> Check {
+    let mut seen: Option<(bool, u64, u8)> = None;
+    for filler in [0x00u8, 0xff, b'a', b'z'] {
+        let mut big = AlignedBuf::new(&vec![filler; bytes.len() + 64]);
+        big.bytes_mut()[32..32 + bytes.len()].copy_from_slice(bytes);
+        let slice = &big.bytes()[32..32 + bytes.len()];
+        st.evaluations += 1;
+        let r = guarded(|| match proguard::ProguardCache::parse(slice) {
+            Ok(c) => (true, answers_hash(&cur::C(c), q)),
+            Err(_) => (false, 0),
+        })
+        .map_err(|p| Fail::new("query-panic", format!("query on a corrupted buffer ({label}) surrounded by {filler:#04x} bytes: {p}")))?;
+        match seen {
+            None => seen = Some((r.0, r.1, filler)),
+            Some((ok, h, f0)) => {
+                if (ok, h) != r {
+                    return Err(Fail::new(
+                        "reads-outside-buffer",
+                        format!("the same {}-byte buffer ({label}) gives different results depending on the bytes around it: surrounded by {f0:#04x}: parsed={ok} answers={h:#x}; surrounded by {filler:#04x}: parsed={} answers={:#x}", bytes.len(), r.0, r.1),
+                    ));
+                }
+            }
+        }
+    }
+    st.class("placement check: same buffer inside four differently filled allocations");
+    Ok(())
+}
+
 pub fn check_buffer(buf: &AlignedBuf, q: &Queries, label: &str, case_hash: u64, st: &mut Stats) -> Check {
     let parsed = guarded(|| proguard::ProguardCache::parse(buf.bytes())).map_err(|p| Fail::new("parse-panic", format!("parse panicked on a corrupted buffer ({label}): {p}")))?;
     match parsed {
@@ -366,6 +446,7 @@ pub fn check_buffer(buf: &AlignedBuf, q: &Queries, label: &str, case_hash: u64, 
             let c = cur::C(c);
             let r = guarded(|| exercise(&c, buf.bytes(), q, st)).map_err(|p| Fail::new("query-panic", format!("query on an accepted corrupted buffer ({label}): {p}")).with(json!({"panic": p})))?;
             let reached = r?;
+            check_placement(buf.bytes(), q, label, st)?;
             if reached > 0 {
                 st.nontrivial(case_hash);
                 st.class("corrupted buffer accepted and reached by >=1 class lookup");
